@@ -545,7 +545,7 @@ class VM:
         elif op == OpCode.SUB:
             b = self.stack.pop()
             a = self.stack.pop()
-            self.stack.append(as_double(to_number(a) - to_number(b)))
+            self.stack.append(as_double(self._to_number(a) - self._to_number(b)))
 
         elif op == OpCode.MUL:
             b = self.stack.pop()
@@ -557,8 +557,8 @@ class VM:
         elif op == OpCode.DIV:
             b = self.stack.pop()
             a = self.stack.pop()
-            b_num = to_number(b)
-            a_num = to_number(a)
+            b_num = self._to_number(b)
+            a_num = self._to_number(a)
             if math.isnan(a_num) or math.isnan(b_num):
                 self.stack.append(float("nan"))
             elif b_num == 0:
@@ -576,8 +576,8 @@ class VM:
         elif op == OpCode.MOD:
             b = self.stack.pop()
             a = self.stack.pop()
-            b_num = to_number(b)
-            a_num = to_number(a)
+            b_num = self._to_number(b)
+            a_num = self._to_number(a)
             if (
                 b_num == 0
                 or math.isnan(a_num)
@@ -603,11 +603,11 @@ class VM:
         elif op == OpCode.POW:
             b = self.stack.pop()
             a = self.stack.pop()
-            self.stack.append(js_pow(to_number(a), to_number(b)))
+            self.stack.append(js_pow(self._to_number(a), self._to_number(b)))
 
         elif op == OpCode.NEG:
             a = self.stack.pop()
-            n = to_number(a)
+            n = self._to_number(a)
             # Ensure -0 produces -0.0 (float)
             if n == 0:
                 self.stack.append(-0.0 if math.copysign(1, n) > 0 else 0.0)
@@ -616,7 +616,7 @@ class VM:
 
         elif op == OpCode.POS:
             a = self.stack.pop()
-            self.stack.append(to_number(a))
+            self.stack.append(self._to_number(a))
 
         # Bitwise
         elif op == OpCode.BAND:
@@ -902,11 +902,11 @@ class VM:
         # Increment/Decrement
         elif op == OpCode.INC:
             a = self.stack.pop()
-            self.stack.append(as_double(to_number(a) + 1))
+            self.stack.append(as_double(self._to_number(a) + 1))
 
         elif op == OpCode.DEC:
             a = self.stack.pop()
-            self.stack.append(as_double(to_number(a) - 1))
+            self.stack.append(as_double(self._to_number(a) - 1))
 
         # Closures
         elif op == OpCode.MAKE_CLOSURE:
@@ -1049,7 +1049,7 @@ class VM:
 
     def _to_int32(self, value: JSValue) -> int:
         """Convert to 32-bit signed integer."""
-        n = to_number(value)
+        n = self._to_number(value)
         if math.isnan(n) or math.isinf(n) or n == 0:
             return 0
         n = int(n)
@@ -1060,7 +1060,7 @@ class VM:
 
     def _to_uint32(self, value: JSValue) -> int:
         """Convert to 32-bit unsigned integer."""
-        n = to_number(value)
+        n = self._to_number(value)
         if math.isnan(n) or math.isinf(n) or n == 0:
             return 0
         n = int(n)
